@@ -32,14 +32,6 @@ def hasTag (series pred : String) : Bool :=
 def sortStrs (l : List String) : List String := (l.toArray.qsort (· < ·)).toList
 def semi (l : List String) : String := if l.isEmpty then "-" else ";".intercalate l
 
-/-- tag pairs of a canonical series key `meas|k=v,k=v` -/
-def tagsOf (series : String) : List (String × String) :=
-  match series.splitOn "|" with
-  | [_, tags] => if tags == "-" then [] else (tags.splitOn ",").filterMap fun kv => match kv.splitOn "=" with
-    | [k, v] => some (k, v)
-    | _ => none
-  | _ => []
-
 def showWrite : WriteRes → String
   | .ok => "ok" | .partialWrite n => s!"partial {n}" | .failed => "err"
 
@@ -114,6 +106,15 @@ partial def step (s : St) (line : String) : St × String :=
   | ["snaprelease"] => (s, "ok")
   | "compact" :: _ => (s, "ok")
   | ["reopen"] => (s, "ok")
+  | ["seriesby", meas, key, op, vals] =>
+    (s, semi (sortStrs (seriesBy s meas key op vals)))
+  | ["measin", vals] => (s, semi (sortStrs ((measurements s).filter fun m => (vals.splitOn ",").contains m)))
+  | ["card"] => (s, s!"card {s.index.length}")
+  | ["idxcompact"] => (s, "ok")
+  | ["sfcompact"] => (s, "ok")
+  | ["drops", meas, key, op, vals] =>
+    let sel := fun series => (series.splitOn "|").head? == some meas && (key == "-" || tagPred series key op vals)
+    (deleteRange s sel (-(2:Int)^70) ((2:Int)^70), "ok")
   | [op, meas, pred, tmin, tmax] =>
     if op != "del" && op != "snapdel" then (s, "bad-op") else
     -- open ends: beyond any int64 timestamp
@@ -130,11 +131,9 @@ partial def step (s : St) (line : String) : St × String :=
   | ["series"] => (s, semi (sortStrs (seriesList s)))
   | ["meas"] => (s, semi (sortStrs (measurements s)))
   | ["tagkeys", meas] =>
-    let ks := ((s.index.filter (·.2 == meas)).flatMap fun e => (tagsOf e.1).map (·.1)).eraseDups
-    (s, semi (sortStrs ks))
+    (s, semi (sortStrs (tagKeys s meas)))
   | ["tagvals", meas, key] =>
-    let vs := ((s.index.filter (·.2 == meas)).flatMap fun e => ((tagsOf e.1).filter (·.1 == key)).map (·.2)).eraseDups
-    (s, semi (sortStrs vs))
+    (s, semi (sortStrs (tagValues s meas key)))
   | ["read", meas, tags, field, tmin, tmax, dir] =>
     match tmin.toInt?, tmax.toInt? with
     | some a, some b => (s, render (read s (meas ++ "|" ++ tags) field a b (dir == "asc")))
